@@ -600,3 +600,231 @@ def check_C07(ck):
             except Exception:
                 ok = False
             ck.expect(ok, "invariant:" + c[0], c[1], impl, "on curve and [r]P=O", "safe API output is a subgroup member")
+
+
+# ====================================================================== C08 / C09 / C18 (fields)
+
+def _fq_specials(p, rng, n_rand=4):
+    W = 1 << (384 if p == Q else 256)
+    Rm = W % p
+    vals = [0, 1, 2, 3, p - 1, p - 2, (p - 1) // 2, (p + 1) // 2, Rm, (Rm - 1) % p, Rm * Rm % p]
+    nb = p.bit_length()
+    for k in range(63, nb, 64):
+        for d in (-1, 0, 1):
+            vals.append(((1 << k) + d) % p)
+            vals.append(((1 << (k + 1)) + d) % p)
+    vals.append((1 << 64) - 1)
+    vals.append(((1 << 128) - 1) << 64)
+    vals += [rng.randrange(p) for _ in range(n_rand)]
+    return sorted(set(v % p for v in vals))
+
+
+def check_C08(ck):
+    rng = ck.rng
+    thorough = ck.tier == "thorough"
+    cases, exp = [], []
+    for (f, p, nl) in (("fq", Q, 6), ("fr", R, 4)):
+        sp = _fq_specials(p, rng, 4 if not thorough else 30)
+        W = 1 << (64 * nl)
+        pairs = [(a, b) for a in sp for b in (sp if thorough else sp[::3] + [a, (p - a) % p])]
+        for (a, b) in pairs:
+            for op, want in (("add", (a + b) % p), ("sub", (a - b) % p), ("mul", a * b % p)):
+                cases.append(("%s/%s" % (f, op), "%s %s %x %x" % (f, op, a, b))); exp.append("%x" % want)
+            cases.append(("%s/lt" % f, "%s lt %x %x" % (f, a, b))); exp.append("true" if a < b else "false")
+            cases.append(("%s/eq" % f, "%s eq %x %x" % (f, a, b))); exp.append("true" if a == b else "false")
+            # Montgomery level on raw (reduced) representations: compared impl vs model only
+            cases.append(("m%s/raw" % f, "m%s add %x %x" % (f, a, b))); exp.append(None)
+            cases.append(("m%s/raw" % f, "m%s sub %x %x" % (f, a, b))); exp.append(None)
+            cases.append(("m%s/raw" % f, "m%s mul %x %x" % (f, a, b))); exp.append(None)
+        for a in sp:
+            for op, want in (("neg", (-a) % p), ("dbl", 2 * a % p), ("sq", a * a % p)):
+                cases.append(("%s/%s" % (f, op), "%s %s %x" % (f, op, a))); exp.append("%x" % want)
+            cases.append(("%s/inv" % f, "%s inv %x" % (f, a))); exp.append("none" if a == 0 else "%x" % pow(a, p - 2, p))
+            cases.append(("%s/iszero" % f, "%s iszero %x" % (f, a))); exp.append("true" if a == 0 else "false")
+            for op in ("neg", "dbl", "sq", "inv", "intorepr"):
+                cases.append(("m%s/raw" % f, "m%s %s %x" % (f, op, a))); exp.append(None)
+            cases.append(("m%s/intorepr" % f, "m%s intorepr %x" % (f, a))); exp.append("%x" % (a * pow(W, p - 2, p) % p))
+        cases.append(("m%s/one" % f, "m%s one" % f)); exp.append("%x" % (W % p))
+        # from_repr: values below / at / above the modulus, maximal representation
+        for x in [0, 1, p - 1, p, p + 1, W - 1, W - p, (1 << (p.bit_length())) - 1, rng.randrange(W), rng.randrange(p)]:
+            cases.append(("%s/fromrepr" % f, "%s fromrepr %x" % (f, x))); exp.append("%x" % x if x < p else "ERR:NotInField")
+            cases.append(("m%s/fromrepr" % f, "m%s fromrepr %x" % (f, x))); exp.append("%x" % (x * W % p) if x < p else "none")
+        # exponents of 0..12 limbs, zero limbs on top
+        for a in sp[:: (4 if not thorough else 1)][:12]:
+            for nlimbs in (0, 1, 2, 4, 6, 7, 12):
+                ls = [rng.randrange(1 << 64) for _ in range(nlimbs)]
+                if nlimbs >= 2 and rng.randrange(2):
+                    ls[-1] = 0
+                if nlimbs >= 1 and rng.randrange(3) == 0:
+                    ls = [0] * nlimbs
+                e = sum(l << (64 * i) for i, l in enumerate(ls))
+                cases.append(("%s/pow%d" % (f, nlimbs), "%s pow %x %s" % (f, a, ";".join("%x" % l for l in ls) or "-"))); exp.append("%x" % pow(a, e, p))
+                cases.append(("m%s/pow" % f, "m%s pow %x %s" % (f, a * W % p, " ".join("%x" % l for l in ls)))); exp.append("%x" % (pow(a, e, p) * W % p))
+        # representation type
+        vals = [0, 1, W - 1, W >> 1, (W >> 1) - 1, p, (1 << 64) - 1, 1 << 64, (1 << 64) + 1] + [rng.randrange(W) for _ in range(4 if not thorough else 20)]
+        for a in vals:
+            for b in vals[:6] + [rng.randrange(W)]:
+                if a + b < W:
+                    cases.append(("repr%d/add_nocarry" % nl, "repr %d add_nocarry %x %x" % (nl, a, b))); exp.append("%x" % (a + b))
+                if b <= a:
+                    cases.append(("repr%d/sub_noborrow" % nl, "repr %d sub_noborrow %x %x" % (nl, a, b))); exp.append("%x" % (a - b))
+                cases.append(("repr%d/cmp" % nl, "repr %d cmp %x %x" % (nl, a, b))); exp.append(str((a > b) - (a < b)))
+            for k in ([0, 1, 63, 64, 65, 127, 128, 64 * nl - 1, 64 * nl, 64 * nl + 1, 400] if not thorough else list(range(0, 401, 1))):
+                cases.append(("repr%d/shr" % nl, "repr %d shr %x %x" % (nl, a, k))); exp.append("%x" % (a >> k))
+                cases.append(("repr%d/shl" % nl, "repr %d shl %x %x" % (nl, a, k))); exp.append("%x" % ((a << k) % W))
+            cases.append(("repr%d/div2" % nl, "repr %d div2 %x" % (nl, a))); exp.append("%x" % (a >> 1))
+            cases.append(("repr%d/mul2" % nl, "repr %d mul2 %x" % (nl, a))); exp.append("%x" % ((a << 1) % W))
+            cases.append(("repr%d/num_bits" % nl, "repr %d num_bits %x" % (nl, a))); exp.append(str(a.bit_length()))
+            cases.append(("repr%d/is_odd" % nl, "repr %d is_odd %x" % (nl, a))); exp.append("true" if a & 1 else "false")
+            cases.append(("repr%d/is_zero" % nl, "repr %d is_zero %x" % (nl, a))); exp.append("true" if a == 0 else "false")
+        cases.append(("repr%d/from_u64" % nl, "repr %d from_u64 %x" % (nl, (1 << 64) - 1))); exp.append("%x" % ((1 << 64) - 1))
+    res = ck.run(cases)
+    for c, (impl, _), want in zip(cases, res, exp):
+        if want is not None:
+            ck.expect(impl == want, "mod-arith:" + c[0], c[1], impl, want, "integer arithmetic modulo q / r; 384-/256-bit unsigned integers")
+
+
+def _f2s(a): return F2.show(a)
+
+
+def check_C09(ck):
+    rng = ck.rng
+    thorough = ck.tier == "thorough"
+    cases, exp = [], []
+    def r2(): return F2.rand(rng)
+    def r6(): return (r2(), r2(), r2())
+    def r12(): return (r6(), r6())
+    sp2 = [(0, 0), (1, 0), (0, 1), (1, 1), (Q - 1, 0), (0, Q - 1), (rng.randrange(Q), 0), (0, rng.randrange(Q))] + [r2() for _ in range(4)]
+    for a in sp2:
+        for b in sp2[:: (1 if thorough else 2)]:
+            cases.append(("fq2/mul", "fq2 mul %s %s" % (_f2s(a), _f2s(b)))); exp.append(_f2s(F2.mul(a, b)))
+            cases.append(("fq2/add", "fq2 add %s %s" % (_f2s(a), _f2s(b)))); exp.append(_f2s(F2.add(a, b)))
+            cases.append(("fq2/sub", "fq2 sub %s %s" % (_f2s(a), _f2s(b)))); exp.append(_f2s(F2.sub(a, b)))
+        cases.append(("fq2/sq", "fq2 sq %s" % _f2s(a))); exp.append(_f2s(F2.mul(a, a)))
+        cases.append(("fq2/dbl", "fq2 dbl %s" % _f2s(a))); exp.append(_f2s(F2.add(a, a)))
+        cases.append(("fq2/neg", "fq2 neg %s" % _f2s(a))); exp.append(_f2s(F2.neg(a)))
+        cases.append(("fq2/inv", "fq2 inv %s" % _f2s(a))); exp.append("none" if a == (0, 0) else _f2s(F2.inv(a)))
+        cases.append(("fq2/nonres", "fq2 nonres %s" % _f2s(a))); exp.append(_f2s(F2.mul(a, O.XI)))
+        cases.append(("fq2/norm", "fq2 norm %s" % _f2s(a))); exp.append("%x" % ((a[0] * a[0] + a[1] * a[1]) % Q))
+        for k in (list(range(0, 8)) + [2 ** 32, 2 ** 64 - 1]) if a in sp2[-3:] or thorough else (0, 1, 2, 3):
+            cases.append(("fq2/frob", "fq2 frob %s %x" % (_f2s(a), k))); exp.append(_f2s(F2.pow(a, Q ** (k % 2))))
+    sp6 = [O.F6_ZERO, O.F6_ONE, ((0, 0), (1, 0), (0, 0)), ((0, 0), (0, 0), (1, 0)), ((rng.randrange(Q), 0), (0, 0), (0, 0)), (r2(), (0, 0), (0, 0)), ((0, 0), r2(), (0, 0))] + [r6() for _ in range(3)]
+    S6 = O.show_f6
+    for a in sp6:
+        for b in sp6[:: (1 if thorough else 2)]:
+            cases.append(("fq6/mul", "fq6 mul %s %s" % (S6(a), S6(b)))); exp.append(S6(O.f6_mul(a, b)))
+            cases.append(("fq6/add", "fq6 add %s %s" % (S6(a), S6(b)))); exp.append(S6(O.f6_add(a, b)))
+            cases.append(("fq6/sub", "fq6 sub %s %s" % (S6(a), S6(b)))); exp.append(S6(O.f6_sub(a, b)))
+        cases.append(("fq6/sq", "fq6 sq %s" % S6(a))); exp.append(S6(O.f6_mul(a, a)))
+        cases.append(("fq6/neg", "fq6 neg %s" % S6(a))); exp.append(S6(O.f6_neg(a)))
+        cases.append(("fq6/dbl", "fq6 dbl %s" % S6(a))); exp.append(S6(O.f6_add(a, a)))
+        cases.append(("fq6/nonres", "fq6 nonres %s" % S6(a))); exp.append(S6(O.f6_mul_v(a)))
+        c0, c1 = r2(), r2()
+        cases.append(("fq6/mulby1", "fq6 mulby1 %s %s" % (S6(a), _f2s(c1)))); exp.append(S6(O.f6_mul(a, ((0, 0), c1, (0, 0)))))
+        cases.append(("fq6/mulby01", "fq6 mulby01 %s %s %s" % (S6(a), _f2s(c0), _f2s(c1)))); exp.append(S6(O.f6_mul(a, (c0, c1, (0, 0)))))
+        cases.append(("fq6/inv", "fq6 inv %s" % S6(a))); exp.append("none" if a == O.F6_ZERO else "?inv6")
+        for k in ((0, 1, 2, 5, 6, 7) if a in sp6[-2:] else (1,)):
+            cases.append(("fq6/frob", "fq6 frob %s %x" % (S6(a), k))); exp.append(S6(O.f6_pow(a, Q ** (k % 6))))
+    w = (O.F6_ZERO, O.F6_ONE)
+    sp12 = [O.F12_ZERO, O.F12_ONE, w, (sp6[2], O.F6_ZERO), (r6(), O.F6_ZERO), (O.F6_ZERO, r6())] + [r12() for _ in range(3)]
+    S12 = O.show_f12
+    def conj(a): return (a[0], O.f6_neg(a[1]))
+    for a in sp12:
+        for b in sp12[:: (1 if thorough else 3)]:
+            cases.append(("fq12/mul", "fq12 mul %s %s" % (S12(a), S12(b)))); exp.append(S12(O.f12_mul(a, b)))
+            cases.append(("fq12/add", "fq12 add %s %s" % (S12(a), S12(b)))); exp.append(S12((O.f6_add(a[0], b[0]), O.f6_add(a[1], b[1]))))
+        cases.append(("fq12/sq", "fq12 sq %s" % S12(a))); exp.append(S12(O.f12_mul(a, a)))
+        cases.append(("fq12/conj", "fq12 conj %s" % S12(a))); exp.append(S12(conj(a)))
+        cases.append(("fq12/inv", "fq12 inv %s" % S12(a))); exp.append("none" if a == O.F12_ZERO else "?inv12")
+        c0, c1, c4 = r2(), r2(), r2()
+        sparse = ((c0, c1, (0, 0)), ((0, 0), c4, (0, 0)))
+        cases.append(("fq12/mulby014", "fq12 mulby014 %s %s %s %s" % (S12(a), _f2s(c0), _f2s(c1), _f2s(c4)))); exp.append(S12(O.f12_mul(a, sparse)))
+    for a in sp12[-2:] + [w]:
+        for k in (list(range(0, 14)) + [2 ** 32 + 5, 2 ** 64 - 1] if thorough else (0, 1, 2, 3, 6, 11, 12, 13, 2 ** 64 - 1)):
+            cases.append(("fq12/frob", "fq12 frob %s %x" % (S12(a), k))); exp.append(S12(O.f12_pow(a, Q ** (k % 12))))
+    res = ck.run(cases)
+    follow = []
+    for c, (impl, _), want in zip(cases, res, exp):
+        if want == "?inv6":
+            a = O.parse_f6(c[1].split()[2])
+            ok = impl != "none" and O.f6_mul(a, O.parse_f6(impl)) == O.F6_ONE
+            ck.expect(ok, "tower:fq6/inv", c[1], impl, "a*inv(a)=1", "inverse in the quotient ring")
+        elif want == "?inv12":
+            a = O.parse_f12(c[1].split()[2])
+            ok = impl != "none" and O.f12_mul(a, O.parse_f12(impl)) == O.F12_ONE
+            ck.expect(ok, "tower:fq12/inv", c[1], impl, "a*inv(a)=1", "inverse in the quotient ring")
+        else:
+            ck.expect(impl == want, "tower:" + c[0], c[1], impl, want, "schoolbook quotient-ring arithmetic / x^(q^k)")
+
+
+def check_C18(ck):
+    rng = ck.rng
+    thorough = ck.tier == "thorough"
+    cases, kinds = [], []
+    n = 6 if not thorough else 60
+    for (f, p, g) in (("fq", Q, 2), ("fr", R, 7)):
+        vals = [0, 1, 4, p - 1, g, (p - 1) // 2]
+        for _ in range(n):
+            s = rng.randrange(1, p)
+            vals.append(s * s % p)          # square
+            vals.append(g * s * s % p)      # non-square (g is a non-residue)
+        if f == "fr":
+            # elements of every 2-adic order: omega^(2^j)
+            om = pow(7, (R - 1) >> 32, R)
+            for j in range(0, 33, 1 if thorough else 5):
+                vals.append(pow(om, 1 << j, R))
+                vals.append(pow(om, 1 << j, R) * pow(rng.randrange(1, R), 1 << 32, R) % R)
+        for a in vals:
+            cases.append(("%s/sqrt" % f, "%s sqrt %x" % (f, a))); kinds.append((f, p, a, "sqrt"))
+            cases.append(("%s/legendre" % f, "%s legendre %x" % (f, a))); kinds.append((f, p, a, "leg"))
+            if f == "fq":
+                cases.append(("fq/sgn0", "fq sgn0 %x" % a)); kinds.append((f, p, a, "sgn"))
+                cases.append(("fq/sgn0-neg", "fq sgn0 %x" % ((-a) % p))); kinds.append((f, p, (-a) % p, "sgn"))
+                cases.append(("fq/lt-neg", "fq lt %x %x" % (a, (-a) % p))); kinds.append((f, p, a, "ltneg"))
+    # Fq2
+    v2 = [(0, 0), (1, 0), (0, 1), (Q - 1, 0), (4, 0), (2, 0), (0, 2), (0, Q - 2)]
+    for _ in range(n):
+        s = F2.rand(rng)
+        sq = F2.mul(s, s)
+        v2.append(sq)
+        v2.append(F2.mul(sq, O.XI))            # xi = 1+u is a non-square
+        v2.append((rng.randrange(Q), 0))       # element of Fq: root real or purely imaginary
+        v2.append((0, rng.randrange(Q)))       # purely imaginary
+        t = rng.randrange(1, Q)
+        v2.append(((-t * t) % Q, 0))           # alpha = -1 branch candidates: a in Fq with a = -t^2
+    for a in v2:
+        cases.append(("fq2/sqrt", "fq2 sqrt %s" % _f2s(a))); kinds.append(("fq2", Q, a, "sqrt"))
+        cases.append(("fq2/legendre", "fq2 legendre %s" % _f2s(a))); kinds.append(("fq2", Q, a, "leg"))
+        cases.append(("fq2/sgn0", "fq2 sgn0 %s" % _f2s(a))); kinds.append(("fq2", Q, a, "sgn"))
+        cases.append(("fq2/lt-neg", "fq2 lt %s %s" % (_f2s(a), _f2s(F2.neg(a))))); kinds.append(("fq2", Q, a, "ltneg"))
+    res = ck.run(cases)
+    for c, (impl, _), (f, p, a, k) in zip(cases, res, kinds):
+        if f != "fq2":
+            issq = a == 0 or pow(a, (p - 1) // 2, p) == 1
+            if k == "sqrt":
+                ok = (impl == "none") if not issq else (impl != "none" and pow(int(impl, 16), 2, p) == a)
+                ck.expect(ok, "sqrt:" + f, c[1], impl, "root iff square", "sqrt returns a root exactly for squares")
+            elif k == "leg":
+                want = "Zero" if a == 0 else ("QuadraticResidue" if issq else "QuadraticNonResidue")
+                ck.expect(impl == want, "legendre:" + f, c[1], impl, want, "Euler's criterion")
+            elif k == "sgn":
+                want = "Negative" if a % 2 else "NonNegative"
+                ck.expect(impl == want, "sgn0:" + f, c[1], impl, want, "parity of the canonical integer")
+            elif k == "ltneg":
+                want = "true" if a < (-a) % p else "false"
+                ck.expect(impl == want, "order:" + f, c[1], impl, want, "order of canonical integers")
+        else:
+            issq = O.f2_is_sq(a)
+            if k == "sqrt":
+                ok = (impl == "none") if not issq else (impl != "none" and F2.mul(O.parse_f(F2, impl), O.parse_f(F2, impl)) == (a[0] % Q, a[1] % Q))
+                ck.expect(ok, "sqrt:fq2", c[1], impl, "root iff square", "sqrt returns a root exactly for squares")
+            elif k == "leg":
+                nrm = (a[0] * a[0] + a[1] * a[1]) % Q
+                want = "Zero" if nrm == 0 else ("QuadraticResidue" if pow(nrm, (Q - 1) // 2, Q) == 1 else "QuadraticNonResidue")
+                ck.expect(impl == want, "legendre:fq2", c[1], impl, want, "Euler's criterion of the norm")
+            elif k == "sgn":
+                want = "Negative" if F2.sgn0(a) else "NonNegative"
+                ck.expect(impl == want, "sgn0:fq2", c[1], impl, want, "parity of first non-zero coefficient")
+            elif k == "ltneg":
+                want = "true" if F2.lt(a, F2.neg(a)) else "false"
+                ck.expect(impl == want, "order:fq2", c[1], impl, want, "lexicographic, u-coefficient most significant")
